@@ -552,6 +552,11 @@ def run(cx, rep):
     modifier_agreement_rule(cx, rep, "C01.22")
     rest_last_rule(cx, rep, "C01.23")
     proto_key_rule(cx, rep, "C01.24")
+    # ---------------------------------------------------------------- C01.25 (= C03.7 + C11.2)
+    # which keys of an object count as DECLARED decides which values reach the index-signature validators and which
+    # keys are surplus: a key named like a member of Object.prototype that passes for declared is accepted unvalidated
+    rep.rule("C01.25", "the object class tells declared from undeclared keys by the declared-key list itself (= C03.7, C11.2)")
+    lifted_rules(cx, rep, "C01.25", (("rules.c03", "C03.7"), ("rules.c11", "C11.2")))
     # ---------------------------------------------------------------- C01.18 (= C07.11)
     rep.rule("C01.18", "the rest element of a list answers for every index from the prefix length on (boundary of the prefix walk)")
     prefix_boundary_rule(cx, rep, "C01.18")
@@ -935,7 +940,7 @@ def proto_key_rule(cx, rep, rid):
                 lits = [z for z in walk(val) if z["k"] == "Lit" and z.get("lit") == "str"]
                 if not lits:
                     data_sites.append((g, x.get("line")))
-    rep.floor(rid, "object keys emitted from data (not printer literals)", len(data_sites), 3)
+    rep.floor(rid, "object keys emitted from data (not printer literals)", len(data_sites), 1)
     passes = False
     for e in emitters:
         for x in walk(F.hir[e]["body"]):
@@ -949,3 +954,24 @@ def proto_key_rule(cx, rep, rid):
         rep.ob(rid, "%s/data-key" % g.rsplit("::", 1)[-1], passes or g in fixers,
                "%s emits an object-literal key taken from data (a declared property name, a discriminator value, a type name) as a plain string key, and nothing on the way to the emitter rewrites the key `__proto__` into a computed key: `{\"__proto__\": v}` sets the prototype of the table instead of defining the entry, so a declared property `__proto__` is never validated" % g,
                "%s:%s" % (F.fns[g].file, line), sample={"fn": g, "normalised_before_emission": passes})
+
+
+def lifted_rules(cx, rep, rid, sources):
+    """re-run rules of other property modules in a scratch report and restate their verdicts under `rid`"""
+    from report import Report
+    import importlib
+    for modname, other in sources:
+        sub = Report.__new__(Report)
+        sub.pid = "sub"; sub.tier = rep.tier; sub.level = "other"; sub.t0 = 0
+        sub.rules = {}; sub.violations = []; sub.samples = []; sub.analysed = {}; sub.assumptions = []; sub.trusted = []
+        sub.explanation = ""; sub.notes = []; sub.extra = {}; sub.known = {}; sub.known_hit = set()
+        try:
+            importlib.import_module(modname).run(cx, sub)
+        except Exception as e:
+            rep.ob(rid, "%s/evaluable" % other, False, "could not evaluate %s inside this check: %s" % (other, e))
+            continue
+        r = sub.rules.get(other, {"obligations": 0, "discharged": 0})
+        bad = [v for v in sub.violations if v["rule"] == other]
+        rep.ob(rid, other, not bad and r["obligations"] > 0,
+               "%s is violated: %s" % (other, "; ".join(v["msg"][:260] for v in bad[:2])),
+               bad[0]["loc"] if bad else None, sample={"rule": other, "obligations": r["obligations"], "discharged": r["discharged"]})
